@@ -16,13 +16,13 @@ un-headed default-component lines are never put directly after a headed block, w
 entry-order (entries of every states/parameters block shuffled), line-order (assignment lines of every expressions block
 shuffled: use before definition).  The independent reader (modelgen.RefModel) must see identical definitions and component
 membership in both texts, otherwise the case is a harness error.  Checked: the permuted text loads; ODE.__eq__ (same name);
-(signature suffix names the differing operand: comments / component-order / component-content); numpy and C code texts identical; state / parameter / monitor index tables of the exec'ed numpy module identical; numpy code
-with schemes explicit_euler + generalized_rush_larsen identical when the base generates them.  Bases that gotranx cannot
-load/generate (or needs > 8 s for) are skipped.  quick: up to 1500 cases (500 per permutation kind), thorough: up to 18000.
+(signature suffix names the differing operand: comments / component-order / component-content); numpy and C code texts identical; state / parameter / monitor index tables of the exec'ed numpy module identical; and, in every
+second case, numpy code with schemes explicit_euler + generalized_rush_larsen identical when the base generates them.  Bases that gotranx cannot
+load/generate (or needs > 5 s for) are skipped.  quick: up to 1500 cases (500 per permutation kind), thorough: up to 18000.
 Non-trivial = permuted text differs from the base text; distinct by sha1(base, permuted)."""
 
 CASE_TIMEOUT = 45
-BASE_LIMIT = 8.0
+BASE_LIMIT = 5.0
 KINDS = ("block-order", "line-order", "entry-order")
 SCHEMES = ["explicit_euler", "generalized_rush_larsen"]
 FAILS = ("load-raises", "eq-false", "codegen-raises", "code-differs", "layout-differs", "scheme-code-differs", "hangs")
@@ -97,20 +97,21 @@ def permute(blocks, kind, rng):
 
 def cases(tier, seed, focus):
     n = 1500 if tier == "quick" else 18000
+    kinds = [k for k in KINDS if not focus or k in focus] or KINDS
     for j in range(n):
-        k = KINDS[j % 3]
-        yield {"mseed": seed * 100003 + j // 3, "opts": ah.model_opts(j // 3), "perm": k, "pseed": j,
-               "tags": [f"C10:{f}:{k}" for f in FAILS] + [f"C10:{f}" for f in ("load-raises", "codegen-raises")]}
+        k = kinds[j % len(kinds)]
+        yield {"mseed": seed * 100003 + j // len(kinds), "opts": ah.model_opts(j // len(kinds)), "perm": k, "pseed": j, "schemes": j % 2 == 0,
+               "tags": [f"C10:{f}:{k}" for f in FAILS if not f.endswith("raises")] + [f"C10:{f}:{x}:{k}" for f in ("load-raises", "codegen-raises", "eq-raises") for x in ah.EXCS]}
 
 
 def build(case):
     if "base" in case and "ode" in case:
-        return {k: case.get(k) for k in ("base", "ode", "perm", "desc")}
+        return {k: case.get(k) for k in ("base", "ode", "perm", "desc", "schemes")}
     comments, blocks = blocks_of(ah.model_text(case))
     got = permute(blocks, case["perm"], random.Random(f"{case['mseed']}/{case['perm']}/{case['pseed']}"))
     if got is None:
         return None
-    return {"base": render(comments, blocks), "ode": render(comments, got[0]), "perm": case["perm"], "desc": got[1]}
+    return {"base": render(comments, blocks), "ode": render(comments, got[0]), "perm": case["perm"], "desc": got[1], "schemes": bool(case.get("schemes"))}
 
 
 def _eq_detail(a, b):
@@ -138,7 +139,7 @@ def check(case):
     except Exception as e:  # noqa: BLE001
         res["errors"].append(f"harness: cannot build case {case.get('perm')}/{case.get('mseed')}: {cm.exc_name(e)}: {cm.short(e)}")
         return res
-    inp = {"base": c["base"], "ode": c["ode"], "perm": kind, "desc": c["desc"]}
+    inp = {"base": c["base"], "ode": c["ode"], "perm": kind, "desc": c["desc"], "schemes": bool(c.get("schemes"))}
     if not same_ref:
         res["errors"].append(f"harness: the permutation changed the reference reading (definitions/membership) :: {cm.short(c['ode'], 400)}")
         return res
@@ -180,6 +181,8 @@ def check(case):
             lay = ah.layout(code)
             if lay != base["layout"]:
                 add("layout-differs", "state/parameter/monitor index tables differ", base["layout"], lay)
+    if not c.get("schemes"):
+        return res
     try:
         with ah.time_limit(BASE_LIMIT):
             sb = cm.py_code(base["ode"], schemes=SCHEMES)
@@ -206,7 +209,7 @@ def on_timeout(case):
     if c is not None:
         res["evals"] += 1
         res["failures"].append(cm.fail(f"C10:hangs:{c['perm']}", f"base + permuted text not processed within {CASE_TIMEOUT} s (base alone is limited to {BASE_LIMIT} s)",
-                                       {k: c[k] for k in ("base", "ode", "perm", "desc")}, "an answer", "none"))
+                                       {k: c.get(k) for k in ("base", "ode", "perm", "desc", "schemes")}, "an answer", "none"))
     return res
 
 
